@@ -93,6 +93,26 @@ def run_lexer_models(ctx, evals, names, k, invs=None, par=4, workers=4):
             log("TLC MCLexer %s K=%d: %d distinct strings, %.0fs%s" % (key, k, r["distinct"], r["wall_s"], (" VIOLATED " + str(r["violated"])) if r["violated"] else ""))
     return res
 
+def semantic_models(ctx, w, invs=("C06Exact", "C09IntegerWhenFits", "C09Rounding")):
+    """TLC MCSem at word size w (exhaustive over all operand pairs) and ref-selftest of the interpreter at the same w."""
+    beh = os.path.join(ctx.wd, "vectors_w%d.ndjson" % w)
+    cfg = "CONSTANTS W = %d\nEmitOn = TRUE\nINIT Init\nNEXT Next\nCHECK_DEADLOCK FALSE\nINVARIANT %s Emit\n" % (w, " ".join(invs))
+    r = vlib.tlc("MCSem", cfg, "%s_sem_w%d" % (ctx.prop, w), workers=8, beh_out=beh, timeout=3600)
+    vlib.tlc_ok(r, "MCSem")
+    log("TLC MCSem W=%d: %d states, %d vectors, %.0fs%s" % (w, r["distinct"], r["beh"], r["wall_s"], (" VIOLATED " + str(r["violated"])) if r["violated"] else ""))
+    binary, _ = vlib.build_harness("debug")
+    st = os.path.join(ctx.wd, "selftest_w%d.json" % w)
+    job = os.path.join(ctx.wd, "selftest_job.json")
+    json.dump({"mode": "selftest", "beh": beh, "stats": st}, open(job, "w"))
+    p = subprocess.run([binary, "run", job], stdout=subprocess.PIPE, stderr=subprocess.PIPE, text=True)
+    res = json.load(open(st)) if os.path.exists(st) else {}
+    if p.returncode != 0 or res.get("disagreements", 1) != 0:
+        raise ToolError("ref-selftest: the reference interpreter disagrees with the specification's vectors at W=%d: %s %s" % (w, res.get("first"), p.stderr[-500:]))
+    log("ref-selftest W=%d: %d vectors reproduced by the reference interpreter" % (w, res["vectors"]))
+    r["selftest"] = res
+    r["W"] = w
+    return r
+
 def replay_jobs(ctx, binary, profile, models, opts, shards_per_e=3):
     jobs = []
     for key, r in models.items():
@@ -155,7 +175,7 @@ def merge_rules(stats):
             out[k] = out.get(k, 0) + v
     return out
 
-def grammar_check(ctx, cats, n_quick, n_thorough, opts, evals=EVALS, invs=None, level="model_checking", extra_cov=None, profiles=("debug", "release"), lexer=None):
+def grammar_check(ctx, cats, n_quick, n_thorough, opts, evals=EVALS, invs=None, level="model_checking", extra_cov=None, profiles=("debug", "release"), lexer=None, sem=None):
     prop = ctx.prop
     opt0 = opts[0] if isinstance(opts, list) else opts
     invs = invs if invs is not None else GRAMMAR_INV.get(prop, [])
@@ -165,6 +185,11 @@ def grammar_check(ctx, cats, n_quick, n_thorough, opts, evals=EVALS, invs=None, 
     if lexer:
         models.update(run_lexer_models(ctx, evals, lexer["alphabets"], lexer["k_quick"] if ctx.quick() else lexer["k_thorough"], lexer.get("invs")))
     spec_viol = [(e, r["violated"]) for e, r in models.items() if r["violated"]]
+    semr = None
+    if sem:
+        semr = semantic_models(ctx, sem["w_quick"] if ctx.quick() else sem["w_thorough"], sem.get("invs", ("C06Exact", "C09IntegerWhenFits", "C09Rounding")))
+        if semr["violated"]:
+            spec_viol.append(("MCSem", semr["violated"]))
     all_findings, all_stats = [], []
     for profile in profiles:
         binary, bt = vlib.build_harness(profile)
@@ -214,6 +239,11 @@ def grammar_check(ctx, cats, n_quick, n_thorough, opts, evals=EVALS, invs=None, 
            "max_steps_per_char": max([s.get("max_ticks_ratio", 0) for s in all_stats] + [0]),
            "tlc": {e: {"states": r["states"], "distinct": r["distinct"], "depth": r["depth"], "wall_s": r["wall_s"]} for e, r in models.items()},
            "profiles": list(profiles)}
+    if semr:
+        cov["states"] += semr["distinct"]
+        cov["transitions"] += semr["states"]
+        cov["semantic_model"] = {"W": semr["W"], "states": semr["distinct"], "invariants": list(sem.get("invs", ("C06Exact", "C09IntegerWhenFits", "C09Rounding"))),
+                                 "interpreter_vectors_reproduced": semr["selftest"]["vectors"], "vector_samples": semr["selftest"].get("samples", [])[:3]}
     if extra_cov:
         cov.update(extra_cov)
     if not cov["samples"]:
@@ -342,14 +372,97 @@ def c20(ctx):
 def c06(ctx):
     return grammar_check(ctx, {"value", "ok_on_semantic_err", "err_on_defined", "profile_diff"}, {"*": 5}, {"*": 6},
                          {"assignments": 1, "boundary_pool": True, "full_placeholders": True, "max_assign": 700 if ctx.quick() else 6000,
-                          "event_every": 500, "event_cap": 2000, "nontrivial_min_ops": 1}, evals=["i64"], invs=[])
+                          "event_every": 500, "event_cap": 2000, "nontrivial_min_ops": 1}, evals=["i64"], invs=[],
+                         sem={"w_quick": 6, "w_thorough": 8, "invs": ("C06Exact",)})
 
 def c09(ctx):
     return grammar_check(ctx, {"value", "ok_on_semantic_err", "err_on_defined", "profile_diff"}, {"*": 5}, {"*": 6},
                          {"assignments": 1, "boundary_pool": True, "full_placeholders": True, "max_assign": 700 if ctx.quick() else 6000,
-                          "event_every": 500, "event_cap": 2000, "nontrivial_min_ops": 1}, evals=["num"], invs=[])
+                          "event_every": 500, "event_cap": 2000, "nontrivial_min_ops": 1}, evals=["num"], invs=[],
+                         sem={"w_quick": 6, "w_thorough": 8, "invs": ("C09IntegerWhenFits", "C09Rounding")})
 
-CHECKS = {"C06": c06, "C09": c09, "C01": c01, "C03": c03, "C04": c04, "C12": c12, "C13": c13, "C14": c14, "C20": c20}
+def base_job(ctx, mode, tag, profile, **kw):
+    j = {"mode": mode, "vocab": os.path.join(WORK, "vocab.json"), "shard": 0, "nshards": 1, "start": 0,
+         "out": os.path.join(ctx.wd, "findings_%s.ndjson" % tag), "events": os.path.join(ctx.wd, "events_%s.ndjson" % tag),
+         "stats": os.path.join(ctx.wd, "stats_%s.ndjson" % tag), "hb": os.path.join(ctx.wd, "hb_%s" % tag),
+         "unspec": os.path.join(ctx.wd, "unspec_%s.tsv" % tag),
+         "jobfile": os.path.join(ctx.wd, "job_%s.json" % tag), "seed": ctx.seed, "tier": ctx.tier, "profile": profile,
+         "event_every": 20, "event_cap": 3000}
+    j.update(kw)
+    return j
+
+def finish(ctx, cats, tlc_runs, all_findings, all_stats, rule, level="model_checking", extra=None, spec_viol=(), trace_cap=40000):
+    """common tail of a check: trace validation, reporting, evidence"""
+    prop = ctx.prop
+    tv = trace_validate(ctx, [j for j in os.listdir(ctx.wd) if j.startswith("events_")], cap=trace_cap)
+    mine = [f for f in all_findings if f.get("cat") in cats]
+    others = {}
+    for f in all_findings:
+        if f.get("cat") not in cats:
+            others[f.get("cat")] = others.get(f.get("cat"), 0) + 1
+    if others:
+        log("findings of other categories (reported by their own checks): %s" % others)
+    nviol = vlib.report(prop, mine)
+    for name, inv, logp in spec_viol:
+        print("VIOLATION property=%s replay=%s" % (prop, logp))
+        log("  the specification itself violates %s (%s)" % (inv, name))
+        nviol += 1
+    trace_cats = {"trace_status": {"C03"}, "trace_ticks": {"C02"}, "trace_pure": {"C16"}}
+    nviol += vlib.report(prop, [f for f in tv["rejections"] if prop in trace_cats.get(f["cat"], {prop}) or f["cat"] == "trace_value"])
+    cov = {"states": sum(r["distinct"] for r in tlc_runs), "transitions": sum(r["states"] for r in tlc_runs),
+           "traces_validated_against_impl": sum_stats(all_stats, "calls") + tv["events"], "trace_events_validated_by_TLC": tv["events"],
+           "trace_decided": tv.get("totals", {}), "evaluations": sum_stats(all_stats, "calls"), "distinct_nontrivial": sum_stats(all_stats, "nontrivial"),
+           "compared": sum_stats(all_stats, "compared"), "matched": sum_stats(all_stats, "matched"), "not_asserted": sum_stats(all_stats, "not_asserted"),
+           "not_asserted_rules": merge_rules(all_stats), "metamorphic_pairs": sum_stats(all_stats, "metamorphic_pairs"), "rule": rule,
+           "samples": [x for s in all_stats for x in s.get("samples", [])][:8] or ["(no sample collected)"],
+           "max_steps_per_char": max([s.get("max_ticks_ratio", 0) for s in all_stats] + [0]),
+           "tlc": [{"module": r["module"], "name": r["name"], "states": r["states"], "distinct": r["distinct"], "wall_s": r["wall_s"]} for r in tlc_runs]}
+    if extra:
+        cov.update(extra)
+    vlib.write_evidence(prop, ctx.tier, ctx.seed, level, cov, time.time() - ctx.t0, nviol,
+                        ["the reference interpreter (harness/src/refsem) transcribes the specification's evaluation rules and is bound to it by ref-selftest vectors; host f64 operations are the IEEE primitives",
+                         "catch_unwind + process supervision observe every panic, abort and hang"])
+    return 1 if nviol else 0
+
+def run_jobs(ctx, jobs_of_profile, profiles=("debug", "release")):
+    all_findings, all_stats = [], []
+    for profile in profiles:
+        binary, bt = vlib.build_harness(profile)
+        jobs = jobs_of_profile(profile)
+        incidents = []
+        for i in range(0, len(jobs), 16):
+            incidents += vlib.supervise(binary, jobs[i:i + 16])
+        f, s = collect(ctx, jobs, incidents)
+        all_findings += f
+        all_stats += s
+        log("replay (%s): %d calls, %d compared, %d matched, %d not asserted, %d metamorphic pairs, %d findings" % (profile, sum_stats(s, "calls"),
+            sum_stats(s, "compared"), sum_stats(s, "matched"), sum_stats(s, "not_asserted"), sum_stats(s, "metamorphic_pairs"), len(f)))
+    if len(profiles) > 1:
+        all_findings += profile_diff(ctx, profiles)
+    return all_findings, all_stats
+
+def c11(ctx):
+    vlib.vocab_json()
+    maxlen = 4 if ctx.quick() else 5
+    beh = os.path.join(ctx.wd, "agg_vectors.ndjson")
+    cfg = "CONSTANTS MaxLen = %d\nEmitOn = TRUE\nINIT Init\nNEXT Next\nCHECK_DEADLOCK FALSE\nINVARIANT C11FoldsAgree C11OrderIndependent Emit\n" % maxlen
+    r = vlib.tlc("MCAgg", cfg, "C11_agg", workers=8, beh_out=beh, timeout=3600)
+    vlib.tlc_ok(r, "MCAgg")
+    log("TLC MCAgg MaxLen=%d: %d lists, %.0fs%s" % (maxlen, r["distinct"], r["wall_s"], (" VIOLATED " + str(r["violated"])) if r["violated"] else ""))
+    semr = semantic_models(ctx, 6 if ctx.quick() else 8)
+    def jobs(profile):
+        js = [base_job(ctx, "agg", "%s_vec_%d" % (profile, s), profile, beh=beh, shard=s, nshards=4) for s in range(4)]
+        for e in ["i64", "f64", "dec", "num"]:
+            js.append(base_job(ctx, "agg", "%s_bnd_%s" % (profile, e), profile, boundary_e=e, exhaustive_len=2 if ctx.quick() else 3,
+                               random_lists=300 if ctx.quick() else 20000, event_every=200))
+        return js
+    f, s = run_jobs(ctx, jobs)
+    sv = [("MCAgg", r["violated"], r["log"])] if r["violated"] else []
+    return finish(ctx, {"value", "ok_on_reject", "ok_on_semantic_err", "err_on_defined", "profile_diff", "panic", "budget"}, [r, semr], f, s,
+                  "every argument list of length 0..%d over the pool {-7,-2,0,3,12,18,Err} (TLC, exhaustive, all orders) with the specification's own result, in every evaluator and alias; boundary-value lists (exhaustive up to length %d, seeded random up to length 8) against the reference interpreter; non-trivial = lists with >= 2 arguments" % (maxlen, 2 if ctx.quick() else 3),
+                  extra={"exhaustive": True, "invariants_checked": ["C11FoldsAgree", "C11OrderIndependent"], "interpreter_vectors_reproduced": semr["selftest"]["vectors"]}, spec_viol=sv)
+
+CHECKS = {"C11": c11, "C06": c06, "C09": c09, "C01": c01, "C03": c03, "C04": c04, "C12": c12, "C13": c13, "C14": c14, "C20": c20}
 
 def replay(prop, path):
     f = json.load(open(path))
